@@ -97,11 +97,19 @@ func (f *WithZipWriter) Call(s *slip.Scope, args slip.List, depth int) slip.Obje
 	setZipHeader(s, z, args, depth)
 	s2 := s.NewScope()
 	s2.Let(sym, &slip.OutputStream{Writer: z})
+	var result slip.Object
 	for i := range forms {
-		_ = slip.EvalArg(s2, forms, i, d2)
+		// A return-from or go leaves the body and is passed on.
+		switch tr := slip.EvalArg(s2, forms, i, d2).(type) {
+		case *slip.ReturnResult, *slip.GoTo:
+			result = tr
+		}
+		if result != nil {
+			break
+		}
 	}
 	_ = z.Flush()
 	_ = z.Close()
 
-	return nil
+	return result
 }
